@@ -186,6 +186,8 @@ type leanReply struct {
 	HasModel  bool
 	ModelFuel bool   // the model ran out of fuel (it predicts unbounded recursion)
 	Slots     []slot // model: all errors before the primary/secondary filter
+	HasHyp    bool
+	HypBad    []string // input hypotheses of the assembly theorems that fail for this case
 }
 
 func parseReply(raw string) (leanReply, error) {
@@ -203,6 +205,16 @@ func parseReply(raw string) (leanReply, error) {
 			out.SpecValid = part.List[1].Atom == "valid"
 			for _, r := range part.List[2:] {
 				out.Violated = append(out.Violated, r.Atom)
+			}
+		case "hyp":
+			out.HasHyp = true
+			if part.List[1].Atom != "ok" {
+				for _, r := range part.List[2:] {
+					out.HypBad = append(out.HypBad, r.Atom)
+				}
+				if len(out.HypBad) == 0 {
+					out.HypBad = []string{"?"}
+				}
 			}
 		case "model":
 			out.HasModel = true
@@ -808,6 +820,9 @@ func (h *harness) oblige(c *Case, ev *evaluated) {
 			}
 			run.Oblige("rule group "+g.name+" (differential only): implementation verdict vs the Lean specification's rule, no model = spec theorem yet", "oracle", 1, !groupBad, failWhat(ev))
 		}
+		if ev.lean.HasHyp {
+			run.Oblige("hypotheses of the assembly theorems hold for the case (InputOk: Schema.wf, wfDefaults, typesProper; selection sets and field nodes have pairwise distinct positions)", "assumption", 1, len(ev.lean.HypBad) == 0, "failed: "+strings.Join(ev.lean.HypBad, ", ")+" on query "+c.Query)
+		}
 		if ev.lean.HasModel {
 			run.Oblige("correspondence: model verdict + multiset of (message, locations) = implementation's (membership for map-iteration picks)", "correspondence", 1, fk != "correspondence", failWhat(ev))
 		}
@@ -820,9 +835,8 @@ type ruleGroup struct {
 	msg   func(string) bool
 }
 
-var differentialGroups = []ruleGroup{
-	{"overlapping-fields", map[string]bool{"fieldsMerge": true}, isMergeClass},
-}
+// Every rule group has its model = spec theorem now (overlapping fields: model_merge_eq_spec).
+var differentialGroups = []ruleGroup{}
 
 func failWhat(ev *evaluated) string {
 	if ev.fail == nil {
